@@ -75,8 +75,10 @@ def run_shard(spec, res):
             rng = histrun.hist_rng(spec, i)
             svc.fresh()
             gen = Mixed(rng, Names(rng))
+            legacy = histrun.legacy_injector(svc, gen.h.n, rng)
+            legacy.mutates = True
             histrun.run_history(svc, gen, spec['steps'], [monitors.c04], res,
-                                hist_id=i)
+                                hist_id=i, after_step=legacy)
             res.count('histories')
             res.count('fp_requests', gen.n_fp)
         res.sample({'history': i, 'last_requests': svc.client.history(4)})
